@@ -121,6 +121,26 @@ def check(tier):
             break
         if sample is None and kind == "run":
             sample = {"program": k, "first_cycle": first[1].split("\n")[0][:300]}
+    # feature sweep (harness/src/bin/stsweep.rs): the same seed in two processes; every program's per-cycle storage digests must agree
+    sweep = vlib.cargo_build("stsweep")
+    ns = 600 if tier == "quick" else 12000
+    souts = []
+    def run_sweep(tag):
+        o = os.path.join(WORK, "sweep%s.out" % tag); d = os.path.join(WORK, "sweep%s_src" % tag)
+        env = vlib.env_base(); env["VERIF_KEEP_ALL_SRC"] = "1"
+        p = subprocess.run([sweep, str(ns), o, d], stdout=subprocess.PIPE, stderr=subprocess.PIPE, timeout=3000, env=env)
+        return o, d
+    with ThreadPoolExecutor(max_workers=2) as ex:
+        souts = list(ex.map(run_sweep, ["A", "B"]))
+    la = open(souts[0][0]).read().split("\n"); lb = open(souts[1][0]).read().split("\n")
+    sweep_diff = [(a, b) for a, b in zip(la, lb) if a != b]
+    if (sweep_diff or len(la) != len(lb)) and not violations:
+        a, b = sweep_diff[0] if sweep_diff else ("(length %d)" % len(la), "(length %d)" % len(lb))
+        pid = a.split(" : ")[0].strip()
+        sp = os.path.join(souts[0][1], pid + ".st")
+        path = vlib.write_replay(PROP, {"property": PROP, "what": "the same program gives different per-cycle storage digests in two processes", "process_1": a[:600], "process_2": b[:600],
+                                        "source": open(sp).read() if os.path.exists(sp) else None, "replay": ".cache/target/debug/stsweep --run <file> several times"})
+        violations.append((path, "run is not reproducible across processes (feature sweep program %s)" % pid, False))
     if flagged and not violations:
         path = vlib.write_replay(PROP, {"property": PROP, "broken": "obligation hash_container_uses_are_lookup_only (Properties/C05.v) against the regenerated table", "order_exposing_sites": flagged,
                                         "searched": "%d generated programs compiled in 3 processes each, run in 2" % nprog})
@@ -137,6 +157,7 @@ def check(tier):
         "rule": "programs with 3-12 functions, 2-8 function blocks, structs, enums, string literals, standard FBs (declaration order shuffled) compiled to STBC in 3 separate OS processes and executed over a clock/input trace in 2 separate processes with full storage dumps and drained RuntimeEvents; outputs compared byte for byte; non-trivial = a (kind, program) group whose first process succeeded",
         "samples": [sample, {"hash_container_sites": tr[1].strip().split("\n")[-1]}],
         "container_bytes_min_max": [min(sizes), max(sizes)] if sizes else None, "order_exposing_sites": len(flagged),
+        "feature_sweep_programs_run_in_two_processes": ns, "feature_sweep_lines_differing": len(sweep_diff),
     }
     assumptions = ["hash seeds, allocator layout, ASLR and the OS are not modelled: independence of them is sampled by the cross-process runs",
                    "the site scanner covers the anchored files only and recognises bindings syntactically"]
